@@ -582,6 +582,50 @@ def rule_i(ctx: Context, R: Reporter, gc: ClassInfo, hc: ClassInfo):
     R.analysed["C15.i:augmented subscript stores scanned"] = n
 
 
+def rule_j(ctx: Context, R: Reporter, gc: ClassInfo, hc: ClassInfo):
+    """C15.j  fitting and predicting read the caller's arrays, they do not write them: no in-place write reaches X or the
+    sample weights handed to fit() / predict() (`X -= offset` centres the caller's particle pool, and the labels and
+    mode statistics computed from it afterwards live in shifted coordinates)."""
+    from ..fresh import inputs_untouched_rule
+
+    funcs = [m for c in (gc, hc) for m in c.methods.values() if m.name in ("fit", "predict", "predict_proba", "bic", "_e_step", "_m_step", "_initialize_parameters", "_compute_lower_bound")]
+    inputs_untouched_rule(ctx, R, "C15.j", funcs, "the caller's data / weights are changed by the fit, so everything the caller computes from them afterwards (labels, mode statistics) refers "
+                          "to other points than the ones it holds", min_funcs=6)
+
+
+def rule_k(ctx: Context, R: Reporter, gc: ClassInfo):
+    """C15.k  "integer sample weights are equivalent to replicating points": inside the weighted mixture every statistic
+    of the data rows is a *weighted* one.  An unweighted `np.var(X)`, `np.mean(X)`, `np.std`, `np.cov`, `np.median`,
+    `np.percentile` of the data in a method that also receives the sample weights lets zero-weight rows steer the fit."""
+    STATS = ("numpy.var", "numpy.std", "numpy.mean", "numpy.cov", "numpy.median", "numpy.percentile", "numpy.quantile", "numpy.ptp", "numpy.nanmean", "numpy.nanvar", "numpy.nanstd")
+    n = 0
+    for m in gc.methods.values():
+        wnames = [p for p in m.params if "weight" in p]
+        dnames = [p for p in m.params if p in ("X", "data", "x")]
+        if not wnames or not dnames:
+            continue
+        n += 1
+        for c in calls_in(m.node):
+            nm = ctx.res.external_name(m, c) or ""
+            meth = isinstance(c.func, ast.Attribute) and c.func.attr in ("var", "std", "mean") and isinstance(c.func.value, ast.Name) and c.func.value.id in dnames
+            if nm in STATS and c.args:
+                a0 = c.args[0]
+                base = a0
+                while isinstance(base, ast.Subscript):
+                    base = base.value
+                on_data = isinstance(base, ast.Name) and base.id in dnames
+                weighted = any(k.arg in ("weights", "aweights", "fweights") for k in c.keywords)
+                if not on_data or weighted:
+                    continue
+            elif not meth:
+                continue
+            R.check("C15.k", "statistics of the data rows inside the weighted mixture are weighted", False, m, c,
+                    msg=f"{m.short}: `{unparse(c)[:60]}` is an unweighted statistic of the data rows in a method that has the sample weights: rows of zero (or tiny) weight influence "
+                        f"the fit, so fit(X, w) no longer equals fit(np.repeat(X, w)) for integer weights", key=f"unweighted-statistic:{m.short}")
+    R.check("C15.k", "weighted-mixture methods scanned for unweighted data statistics", True, None, None, key="unweighted-statistic-scan")
+    R.floor("C15.k", "mixture methods receiving data and weights", n, 3)
+
+
 def run(ctx: Context, R: Reporter):
     hc = hier_class(ctx)
     gc = gmm_class(ctx, hc)
@@ -594,6 +638,8 @@ def run(ctx: Context, R: Reporter):
     R.guard(rule_g, ctx, R, gc)
     R.guard(rule_h, ctx, R, gc)
     R.guard(rule_i, ctx, R, gc, hc)
+    R.guard(rule_j, ctx, R, gc, hc)
+    R.guard(rule_k, ctx, R, gc)
 
 
 def rule_f(ctx: Context, R: Reporter, gc, hc):
@@ -622,7 +668,7 @@ def _scale_memo_variant(with_reset: bool):
 
 
 def variants():
-    from ..variants import Variant, alpha_rename, delete_stmt, replace_expr, replace_stmt
+    from ..variants import Variant, alpha_rename, delete_stmt, insert_after, replace_expr, replace_stmt
 
     cl = "tempest/cluster.py"
     H = "HierarchicalGaussianMixture"
@@ -641,6 +687,10 @@ def variants():
         Variant("c-three-components", "bad", replace_expr(cl, f"{H}.fit", "GaussianMixture(n_components=2, covariance_type=self.covariance_type, n_init=self.n_init)", "GaussianMixture(n_components=3, covariance_type=self.covariance_type, n_init=self.n_init)"), ["C15.c"]),
         Variant("d-mstep-unnormalised", "bad", delete_stmt(cl, "GaussianMixture._m_step", "weights /= np.sum(weights)"), ["C15.d"], quick=True),
         Variant("e-drop-weight-normalisation", "bad", delete_stmt(cl, "GaussianMixture.fit", "sample_weight = sample_weight / np.sum(sample_weight)"), ["C15.e"], quick=True),
+        Variant("j-fit-centres-callers-data-in-place", "bad", insert_after(cl, f"{H}.fit", "n_samples, n_features = X.shape", "X -= np.average(X, axis=0)"), ["C15.j"], quick=True),
+        Variant("j-benign-fit-centres-a-copy", "benign", insert_after(cl, f"{H}.fit", "n_samples, n_features = X.shape", "Xc = X - np.average(X, axis=0)")),
+        Variant("k-unweighted-bandwidth", "bad", replace_expr(cl, "GaussianMixture._initialize_parameters", "np.exp(-0.5 * distances)", "np.exp(-0.5 * distances / (np.mean(np.var(X, axis=0)) + self.reg_covar))"), ["C15.k"], quick=True),
+        Variant("k-benign-weighted-bandwidth", "benign", replace_expr(cl, "GaussianMixture._initialize_parameters", "np.exp(-0.5 * distances)", "np.exp(-0.5 * distances / 1.0)")),
         Variant("h-diag-density-without-jitter", "bad", replace_stmt(cl, "GaussianMixture.predict", "cov = self._get_covariance(self.covariances_, k)", "cov = self._get_covariance(self.covariances_, k)\nif self.covariance_type == 'diag':\n    v = self.covariances_[k]\n    log_probabilities[:, k] = np.log(self.weights_[k] + 1e-10) - 0.5 * np.sum((X - self.means_[k]) ** 2 / v + np.log(2 * np.pi * v), axis=1)\n    continue"), ["C15.h"], quick=True),
         Variant("h-density-on-bare-covariance", "bad", replace_expr(cl, "GaussianMixture._compute_lower_bound", "cov + np.eye(cov.shape[0]) * self.reg_covar", "cov"), ["C15.h"]),
         Variant("i-merge-duplicates-fancy-add", "bad", replace_stmt(cl, "GaussianMixture.fit", "sample_weight = sample_weight / np.sum(sample_weight)", "sample_weight = sample_weight / np.sum(sample_weight)\nrows, inverse = np.unique(X, axis=0, return_inverse=True)\nmerged = np.zeros(len(rows))\nmerged[inverse] += sample_weight\nX, sample_weight = rows, merged"), ["C15.i"], quick=True),
